@@ -195,6 +195,15 @@ def run(chk, repo):
                     ast.GtE: a_ >= b_}.get(type(e.ops[0]))
         if t_ == "isinstance(%s[0], Iterable)" % va:
             return kinds[0] if kinds else None
+        if isinstance(e, ast.Call) and unparse(e.func) in ("all", "any") and len(e.args) == 1 and isinstance(e.args[0], ast.Name):
+            # the flags collected once: flags = [isinstance(arg, Iterable) for arg in dargs] ; all(flags) / any(flags)
+            defs_ = [a_ for a_ in ast.walk(ini) if isinstance(a_, ast.Assign) and len(a_.targets) == 1
+                     and isinstance(a_.targets[0], ast.Name) and a_.targets[0].id == e.args[0].id]
+            if len(defs_) == 1 and isinstance(defs_[0].value, (ast.ListComp, ast.GeneratorExp)) and not (
+                    isinstance(defs_[0].value, ast.GeneratorExp) and sum(
+                        1 for n_ in ast.walk(ini) if isinstance(n_, ast.Name) and n_.id == e.args[0].id and isinstance(n_.ctx, ast.Load)) > 1):
+                return truth(ast.Call(func=e.func, args=[defs_[0].value], keywords=[]), n, kinds)
+            return None
         if isinstance(e, ast.Call) and unparse(e.func) in ("all", "any") and len(e.args) == 1 \
                 and isinstance(e.args[0], (ast.GeneratorExp, ast.ListComp)) and len(e.args[0].generators) == 1 \
                 and unparse(e.args[0].generators[0].iter) == va and not e.args[0].generators[0].ifs:
@@ -251,6 +260,14 @@ def run(chk, repo):
                 v_ = truth(stmts_[0].test, n_, kinds)
                 if v_ is not None:
                     stmts_ = stmts_[0].body if v_ else stmts_[0].orelse
+        # bookkeeping of the guards (n = len(dargs), flags = [isinstance(a, Iterable) for a in dargs]) is not an action
+        def _bookkeeping(s_):
+            return isinstance(s_, ast.Assign) and len(s_.targets) == 1 and isinstance(s_.targets[0], ast.Name) \
+                and not s_.targets[0].id.startswith("cond__") \
+                and all(unparse(c_.func) in ("isinstance", "len", "all", "any") for c_ in ast.walk(s_.value) if isinstance(c_, ast.Call)) \
+                and not any(isinstance(x_, ast.Name) and x_.id == s_.targets[0].id for s2_ in stmts_ if s2_ is not s_
+                            for x_ in ast.walk(s2_))
+        stmts_ = [s_ for s_ in stmts_ if not _bookkeeping(s_)]
         # the temporary of a desugared conditional expression: T = E ; X = T  is  X = E
         k_ = 0
         while k_ + 1 < len(stmts_):
